@@ -370,8 +370,14 @@ impl Server {
         // Track adaptive sleep intervals
         let mut cycles_without_work = 0;
         
+        #[cfg(feature = "verif")]
+        crate::verif::mark_command_thread();
+        
         loop {
             let mut did_work = false;
+            
+            #[cfg(feature = "verif")]
+            crate::verif::LOOP_COUNT.fetch_add(1, Ordering::SeqCst);
             
             // Process wake-up queue first (very fast, lock-free)
             did_work |= self.process_wakeups()?;
@@ -1458,6 +1464,8 @@ impl Server {
                 // SCRIPT commands need script cache access
                 self.handle_script_command(parts)
             },
+            #[cfg(feature = "verif")]
+            "VERIF" => self.handle_verif(parts, conn_id),
             _ => Ok(RespFrame::error(format!("ERR unknown command '{}'", command_name))),
         };
         
@@ -3375,5 +3383,119 @@ impl Server {
         }
         
         Ok(())
+    }
+}
+
+/// Verification admin command (feature `verif` only). Read-only views of
+/// internal state plus arming of the sync points / fail points in
+/// `crate::verif`; see that module.
+#[cfg(feature = "verif")]
+impl Server {
+    fn handle_verif(&mut self, parts: &[RespFrame], conn_id: u64) -> Result<RespFrame> {
+        use crate::verif;
+        fn arg(parts: &[RespFrame], i: usize) -> Option<Vec<u8>> {
+            match parts.get(i) {
+                Some(RespFrame::BulkString(Some(b))) => Some(b.to_vec()),
+                _ => None,
+            }
+        }
+        fn word(parts: &[RespFrame], i: usize) -> String {
+            arg(parts, i).map(|b| String::from_utf8_lossy(&b).to_uppercase()).unwrap_or_default()
+        }
+        fn bulk(b: Vec<u8>) -> RespFrame { RespFrame::from_bytes(b) }
+        fn text(s: &str) -> RespFrame { RespFrame::from_bytes(s.as_bytes().to_vec()) }
+        
+        match word(parts, 1).as_str() {
+            "LOOPCOUNT" => Ok(RespFrame::Integer(verif::LOOP_COUNT.load(Ordering::SeqCst) as i64)),
+            "CONNID" => Ok(RespFrame::Integer(conn_id as i64)),
+            "CHECK" => {
+                let lines = self.storage.verif_check();
+                Ok(RespFrame::Array(Some(lines.iter().map(|l| text(l)).collect())))
+            }
+            "EXPIRY" => {
+                let rows = self.storage.verif_expiry();
+                Ok(RespFrame::Array(Some(rows.into_iter().map(|(db, key, present, stored, index)| {
+                    RespFrame::Array(Some(vec![
+                        RespFrame::Integer(db as i64),
+                        bulk(key),
+                        RespFrame::Integer(present as i64),
+                        match stored { Some(v) => RespFrame::Integer(v), None => RespFrame::null_bulk() },
+                        RespFrame::Integer(index),
+                    ]))
+                }).collect())))
+            }
+            "BLOCKED" => {
+                let registry = self.blocking_manager.verif_dump().into_iter().map(|(db, key, ids)| {
+                    RespFrame::Array(Some(vec![
+                        RespFrame::Integer(db as i64),
+                        bulk(key),
+                        RespFrame::Array(Some(ids.into_iter().map(|i| RespFrame::Integer(i as i64)).collect())),
+                    ]))
+                }).collect();
+                let mut conns = Vec::new();
+                for id in self.connections.all_connection_ids() {
+                    let st = self.connections.with_connection(id, |c| match &c.state {
+                        ConnectionState::Blocked(_) => "blocked",
+                        ConnectionState::Connected => "connected",
+                        ConnectionState::Authenticated => "ready",
+                        ConnectionState::Closing => "closing",
+                    }).unwrap_or("gone");
+                    conns.push(RespFrame::Array(Some(vec![RespFrame::Integer(id as i64), text(st)])));
+                }
+                Ok(RespFrame::Array(Some(vec![
+                    RespFrame::Array(Some(registry)),
+                    RespFrame::Array(Some(conns)),
+                    RespFrame::Integer(self.blocking_manager.verif_pending_wakeups() as i64),
+                ])))
+            }
+            "SWEEPER" => match word(parts, 2).as_str() {
+                "HOLD" => { verif::SWEEPER_HOLD.arm("collected", b""); Ok(RespFrame::ok()) }
+                "RELEASE" => { verif::SWEEPER_HOLD.release(); Ok(RespFrame::ok()) }
+                "PASSES" => Ok(RespFrame::Integer(verif::SWEEP_PASSES.load(Ordering::SeqCst) as i64)),
+                "STATE" => {
+                    let passes = RespFrame::Integer(verif::SWEEP_PASSES.load(Ordering::SeqCst) as i64);
+                    Ok(match verif::SWEEPER_HOLD.parked() {
+                        Some((_, keys)) => RespFrame::Array(Some(vec![text("parked"), passes,
+                            RespFrame::Array(Some(keys.into_iter().map(bulk).collect()))])),
+                        None => RespFrame::Array(Some(vec![text("idle"), passes, RespFrame::Array(Some(vec![]))])),
+                    })
+                }
+                _ => Ok(RespFrame::error("ERR VERIF SWEEPER HOLD|RELEASE|PASSES|STATE")),
+            },
+            "RDB" => match word(parts, 2).as_str() {
+                "COUNTSTEPS" => Ok(RespFrame::Integer(verif::RDB_LAST_STEPS.load(Ordering::SeqCst))),
+                "SAVES" => Ok(RespFrame::Array(Some(vec![
+                    RespFrame::Integer(verif::RDB_SAVES_STARTED.load(Ordering::SeqCst) as i64),
+                    RespFrame::Integer(verif::RDB_SAVES_FINISHED.load(Ordering::SeqCst) as i64),
+                ]))),
+                "INPROGRESS" => Ok(RespFrame::Integer(
+                    self.rdb_engine.as_ref().map(|e| e.is_bgsave_in_progress() as i64).unwrap_or(0))),
+                "FAILSTEP" | "ABORTSTEP" => {
+                    let n = arg(parts, 3).and_then(|b| String::from_utf8_lossy(&b).parse::<i64>().ok());
+                    match n {
+                        Some(n) => {
+                            verif::RDB_FAIL_ABORT.store(word(parts, 2) == "ABORTSTEP", Ordering::SeqCst);
+                            verif::RDB_FAIL_AT.store(n, Ordering::SeqCst);
+                            Ok(RespFrame::ok())
+                        }
+                        None => Ok(RespFrame::error("ERR step number required")),
+                    }
+                }
+                "HOLD" => {
+                    let phase = arg(parts, 3).map(|b| String::from_utf8_lossy(&b).to_string()).unwrap_or_default();
+                    let key = arg(parts, 4).unwrap_or_default();
+                    verif::RDB_HOLD.arm(&phase, &key);
+                    Ok(RespFrame::ok())
+                }
+                "RELEASE" => { verif::RDB_HOLD.release(); Ok(RespFrame::ok()) }
+                "STATE" => Ok(match verif::RDB_HOLD.parked() {
+                    Some((phase, keys)) => RespFrame::Array(Some(vec![text("parked"), text(&phase),
+                        keys.into_iter().next().map(bulk).unwrap_or_else(RespFrame::null_bulk)])),
+                    None => RespFrame::Array(Some(vec![text("idle")])),
+                }),
+                _ => Ok(RespFrame::error("ERR VERIF RDB COUNTSTEPS|SAVES|INPROGRESS|FAILSTEP n|ABORTSTEP n|HOLD phase key|RELEASE|STATE")),
+            },
+            _ => Ok(RespFrame::error("ERR VERIF LOOPCOUNT|CONNID|CHECK|EXPIRY|BLOCKED|SWEEPER ...|RDB ...")),
+        }
     }
 }
